@@ -251,8 +251,23 @@ def handleResolver (hdr : List String) (body : List (List String)) : List String
         let fullPath := pathUp (allBlks.length + 1) c.block.id []
         let stack := if c.step == .undo then fullPath.dropLast else fullPath
         let lastCanon := canonAll.filter (fun b => sp == 0 || b.num ≤ ((bundles.filter (fun bu => bu.base ≤ sp)).map (fun bu => bu.base + bs - 1)).foldl max 0)
+        -- first the undos, then the finality replay, then the new blocks
+        let phase (st : Step) : Nat := match st with | .undo => 0 | .irreversible => 1 | _ => 2
+        let phasesOK := ((impl.map (fun e => phase e.step)).zip ((impl.map (fun e => phase e.step)).drop 1)).all (fun (a, b) => a ≤ b)
+        -- every Undo names the junction: the parent of the oldest undone block, with its own height
+        let undoEvs := impl.filter (·.step == .undo)
+        let junctionOK := match undoEvs.getLast? with
+          | none => true
+          | some oldest =>
+            let jid := parent oldest.ref.id
+            let jnum := (allBlks.find? (·.id == jid)).map (·.num)
+            undoEvs.all (fun e => match e.junction with
+              | some j => j.id == jid && (jnum.isNone || jnum == some j.num)
+              | none => false)
         let fails : List String :=
           if rend == "panic" || rend == "hang" then ["resolver-crash-or-hang"]
+          else if !phasesOK then ["resumption-out-of-order-undo-then-irreversible-then-new"]
+          else if !junctionOK then ["undo-does-not-name-the-junction"]
           else if through then
             -- pass-through: exactly the canonical blocks from start, each once, as new+irreversible
             (if rend == "stop" then
